@@ -64,6 +64,8 @@ pub struct Abs {
     /// when set, the first `read` returns at most 7 bytes (a source that hands out fewer bytes than
     /// asked; nondeterministic counts on every call did not finish in 20 min)
     pub short_reads: bool,
+    /// which read calls (bit i = call i+1) are short when `short_reads` is set
+    pub short_mask: u32,
 }
 
 impl Abs {
@@ -82,6 +84,7 @@ impl Abs {
             all_or_nothing: false,
             max_seeks: u32::MAX,
             short_reads: false,
+            short_mask: 0b001,
         }
     }
     pub fn strict(len: u64, pos: u64) -> Self {
@@ -132,9 +135,9 @@ impl Read for Abs {
         let n = if self.all_or_nothing {
             if avail >= buf.len() as u64 { buf.len() } else { 0 }
         } else if self.short_reads {
-            // a source whose FIRST and THIRD reads hand out at most 7 bytes (fewer than a tag,
-            // fewer than asked), the other reads everything asked
-            if self.calls == 1 || self.calls == 3 {
+            // a source some of whose reads (per `short_mask`) hand out at most 7 bytes (fewer than
+            // a tag, fewer than asked), the other reads everything asked
+            if self.calls <= 8 && (self.short_mask >> (self.calls - 1)) & 1 == 1 {
                 core::cmp::min(core::cmp::min(avail, buf.len() as u64), 7) as usize
             } else {
                 core::cmp::min(avail, buf.len() as u64) as usize
